@@ -106,6 +106,15 @@ def run(ctx, prog, S, M, explicit):
         meth = call.func.attr
         where = "%s:%d" % (f.file, call.lineno)
         skey = "%s@%s.%s" % (f.qualname, ast.unparse(call.func.value), meth)
+        if meth == "replace" and len(call.args) == 2:
+            ta = tags_of_classes(prog, M, elem_classes(T, M, T.expr(call.args[0], fc))[0])
+            tb = tags_of_classes(prog, M, elem_classes(T, M, T.expr(call.args[1], fc))[0])
+            if ta and tb and set(ta) == set(tb):
+                ctx.ok("R10.raw", skey, sample={"site": where, "op": "replace", "same_tag": ta})
+            else:
+                ctx.error(where, "replace(%s, %s): cannot show that the new element has the tag of the one it replaces" % (
+                    ast.unparse(call.args[0]), ast.unparse(call.args[1])))
+            continue
         if meth in ("extend", "replace"):
             ctx.error(where, "raw tree mutation .%s() on an element is not modelled" % meth)
             continue
